@@ -130,15 +130,20 @@ class Sim:
         self.nv = 0
         self._patches = []
         self.reloads = 0
-        self._install()
-        world.reset_pipeline_state()
-        world.fresh_db(targets)
-        self.in_build = True
-        world.load_engine(spec, prerecord)
-        self.in_build = False
         self._nodes = None
-        for m in self.monitors:
-            m.start(self)
+        self._install()
+        try:
+            world.reset_pipeline_state()
+            world.fresh_db(targets)
+            self.in_build = True
+            world.load_engine(spec, prerecord)
+            self.in_build = False
+            for m in self.monitors:
+                m.start(self)
+        except BaseException:
+            # (construction may be interrupted by the build deadline) never leave the wrappers of a dead history behind
+            self.close()
+            raise
 
     # -- instrumentation (module attribute wrappers; restored by close()) ----
     def _install(self):
@@ -414,6 +419,10 @@ class Sim:
             k = (m.jobid, m.target if m.target else '__all__')
             queued[k] = queued.get(k, 0) + 1
         held = {j.tag: set(j.get('do')) for j in self.farm._jobs}  # pylint: disable=protected-access
+        for r in self.releases:
+            # a message accounts for one release only (two releases of one unit can coexist: known finding)
+            if r.state == 'queued' and queued.get(r.key(), 0) > 0:
+                queued[r.key()] -= 1
         for r in self.releases:
             if r.state == 'released' and queued.get(r.key(), 0) > 0:
                 queued[r.key()] -= 1
